@@ -327,7 +327,7 @@ class Run:
                 "states": max(self.states, 0), "transitions": max(self.transitions, 0),
                 "traces_validated_against_impl": self.traces_validated,
                 "samples": self.samples if self.samples else ["(no sample recorded)"],
-                "evaluations": self.evaluations, "distinct_nontrivial": len(self.nontrivial),
+                "evaluations": self.evaluations + self.replayed, "distinct_nontrivial": len(self.nontrivial),
                 "rule": self.rule, "exhaustive": self.exhaustive,
                 "design_models": self.design, "behaviours_replayed_into_impl": self.replayed,
                 "trace_events_validated": self.events, "model_drift_warnings": self.drift,
